@@ -11,6 +11,8 @@ def build(run):
     event_entry.verify_event(run)
     outputfunc.verify_outputfunc(run)  # a handler that sends events must let a failed delivery (e.g. a refused recursion) escape
     event_send.verify_send(run)       # a filter veto returns False without calling dest.event: the destination guard is not touched
+    from specs import fsm as fsmspec
+    fsmspec.verify_fsm(run, what=('c03',))   # the documented exception: ONE chained transition per event; a second request is refused
 
     # ---- scan obligations: who writes the guard, where it is lifted --------------------------------------------------
     w = scan.attr_writers('_event_active')
